@@ -6,9 +6,11 @@ package app
 
 // runTasks: a non-zero exit status of any command of any executed task makes the action fail.
 //@ func (*App).runTasks
-//@ props C09
+//@ props C09 C19 C20
+//@ at entry: ghost runCalls = runCalls + 1
 //@ requires a.Options != nil && runner != nil && TasksInv(spokfile) && I01(cp(spokfile)) && spokfile.Globs != nil && GlobsCurrent(spokfile)
-//@ modifies fexists, fdata, last, ranCount, dagV, dagE, dagItem, dagN, qpos, lastGraph, runPhase, mapOf(spokfile.Globs), lastResults, fswrites
+//@ modifies fexists, fdata, last, ranCount, dagV, dagE, dagItem, dagN, qpos, lastGraph, runPhase, mapOf(spokfile.Globs), lastResults, fswrites, runCalls
+//@ ensures runCalls == old(runCalls) + 1
 //@ ensures [C19,writes-only-inside-the-cache-directory] forall p string :: {fswrites[p]} fswrites[p] && !old(fswrites)[p] ==> ancOrSelf(join2(spokfile.Dir, ".spok"), p)
 //@ at return Run#0: ghost lastResults = results
 //@ ensures [C09,failing-command-fails-action] result == nil ==> tasksOk(lastResults, len(lastResults))
@@ -61,8 +63,77 @@ package app
 
 // handleClean: with a user-defined clean task spok itself removes nothing
 //@ func (*App).handleClean
-//@ props C12
+//@ props C12 C19 C09
 //@ requires a.Options != nil && runner != nil && TasksInv(spokfile) && I01(cp(spokfile)) && spokfile.Globs != nil && GlobsCurrent(spokfile)
-//@ modifies removed, fexists, fdata, last, ranCount, dagV, dagE, dagItem, dagN, qpos, lastGraph, runPhase, mapOf(spokfile.Globs), lastResults, fswrites
+//@ modifies removed, fexists, fdata, last, ranCount, dagV, dagE, dagItem, dagN, qpos, lastGraph, runPhase, mapOf(spokfile.Globs), lastResults, fswrites, runCalls
 //@ ensures [C12,user-clean-task-runs-instead] dom(spokfile.Tasks, "clean") ==> removed == old(removed)
 //@ ensures [C12,only-designated-paths-removed] forall p string :: {removed[p]} removed[p] && !old(removed)[p] ==> Des(spokfile, p) && p != spokfile.Path && !ancOrSelf(p, spokfile.Dir)
+//@ ensures [C19,clean-removes-or-writes-the-cache] forall p string :: {fswrites[p]} fswrites[p] && !old(fswrites)[p] ==> removed[p] || ancOrSelf(join2(spokfile.Dir, ".spok"), p)
+//@ ensures [C09,failing-command-fails-action] result == nil && runCalls != old(runCalls) ==> tasksOk(lastResults, len(lastResults))
+
+// ---- C19 / C20: the other actions ----
+
+// --init: writes the demo spokfile and appends to .gitignore in the working directory, nothing
+// else, and never when a spokfile is already there.
+//@ pred initSpok() := join2(cwdPathF(), "spokfile")
+//@ pred initIgnore() := join2(cwdPathF(), ".gitignore")
+//@ func (*App).initialise
+//@ props C19
+//@ modifies fexists, fdata, fswrites
+//@ ensures [C19,init-writes-only-spokfile-and-gitignore] forall p string :: {fswrites[p]} fswrites[p] && !old(fswrites)[p] ==> p == initSpok() || p == initIgnore()
+//@ ensures [C19,init-changes-no-other-file] forall p string :: {fdata[p]} p != initSpok() && p != initIgnore() ==> fdata[p] == old(fdata)[p] && fexists[p] == old(fexists)[p]
+//@ ensures [C19,init-never-overwrites-an-existing-spokfile] ioOK && old(fexists)[initSpok()] ==> result != nil && fswrites == old(fswrites) && fdata == old(fdata) && fexists == old(fexists)
+//@ ensures [C19,gitignore-is-appended-to] result == nil ==> fdata[initIgnore()] == old(fdata)[initIgnore()] + gitIgnoreText
+//@ ensures [C19,demo-spokfile-written] result == nil ==> fdata[initSpok()] == demoSpokfile
+
+// --show / --vars: write nothing (the frame is the whole contract: no modifies clause); names are
+// listed in sorted order, each once
+//@ func (*App).showTasks
+//@ props C19 C20
+//@ requires spokfile != nil
+//@ ensures true
+//@ loop 0: invariant true
+//@ loop 1: invariant 0 <= $i && $i <= len(names)
+
+//@ func (*App).showVariables
+//@ props C19 C20
+//@ requires spokfile != nil
+//@ ensures true
+//@ loop 0: invariant true
+//@ loop 1: invariant 0 <= $i && $i <= len(names)
+
+// no task names given: the task called default runs when there is one, otherwise the listing
+//@ func (*App).handleDefault
+//@ props C19 C20 C09
+//@ requires a.Options != nil && runner != nil && TasksInv(spokfile) && I01(cp(spokfile)) && spokfile.Globs != nil && GlobsCurrent(spokfile)
+//@ modifies fexists, fdata, last, ranCount, dagV, dagE, dagItem, dagN, qpos, lastGraph, runPhase, mapOf(spokfile.Globs), lastResults, fswrites, runCalls
+//@ ensures [C20,default-task-runs-when-defined] dom(spokfile.Tasks, "default") <==> runCalls == old(runCalls) + 1
+//@ ensures [C20,listing-otherwise] !dom(spokfile.Tasks, "default") ==> runCalls == old(runCalls) && fswrites == old(fswrites) && fdata == old(fdata) && fexists == old(fexists)
+//@ ensures [C19,writes-only-inside-the-cache-directory] forall p string :: {fswrites[p]} fswrites[p] && !old(fswrites)[p] ==> ancOrSelf(join2(spokfile.Dir, ".spok"), p)
+//@ ensures [C09,failing-command-fails-action] result == nil && runCalls != old(runCalls) ==> tasksOk(lastResults, len(lastResults))
+
+//@ func (*App).setup
+//@ props C19
+//@ requires a.Options != nil
+//@ modifies a.logger, a.Options.Spokfile, foundDir, findReadErr
+//@ ensures result == nil ==> a.logger != nil
+
+// Run: the action dispatch. loadedOK is set when the spokfile has been read, parsed and loaded.
+//@ pred projCache(a *App) := join2(dirOf(a.Options.Spokfile), ".spok")
+//@ func (*App).Run
+//@ props C19 C20 C09
+//@ requires a.Options != nil
+//@ requires [history-invariant] forall c string :: {fexists[c]} I01(c)
+//@ modifies a.stream, a.logger, a.Options.Spokfile, foundDir, findReadErr, taskIdx, loadedOK, removed, fexists, fdata, last, ranCount, dagV, dagE, dagItem, dagN, qpos, lastGraph, runPhase, lastResults, fswrites, runCalls, strmLeft, strmDone, strmExp, strmLastT, strmInput
+//@ at entry: ghost loadedOK = false
+//@ at return New#1: ghost loadedOK = (err == nil)
+//@ ensures [C19,init-writes-only-spokfile-and-gitignore] a.Options.Init ==> forall p string :: {fswrites[p]} fswrites[p] && !old(fswrites)[p] ==> p == initSpok() || p == initIgnore()
+//@ ensures [C19,init-never-overwrites-an-existing-spokfile] a.Options.Init && ioOK && old(fexists)[initSpok()] ==> result != nil && fswrites == old(fswrites) && fdata == old(fdata)
+//@ ensures [C19,nothing-written-unless-the-spokfile-parses-and-loads] !a.Options.Init && !loadedOK ==> fswrites == old(fswrites) && fdata == old(fdata) && fexists == old(fexists)
+//@ ensures [C19,fmt-rewrites-only-the-spokfile] !a.Options.Init && a.Options.Fmt ==> forall p string :: {fswrites[p]} fswrites[p] && !old(fswrites)[p] ==> p == a.Options.Spokfile
+//@ ensures [C19,fmt-changes-no-other-file] !a.Options.Init && a.Options.Fmt ==> forall p string :: {fdata[p]} p != a.Options.Spokfile ==> fdata[p] == old(fdata)[p] && fexists[p] == old(fexists)[p]
+//@ ensures [C19,listing-actions-write-nothing] !a.Options.Init && !a.Options.Fmt && (a.Options.Variables || (!a.Options.Clean && a.Options.Show)) ==> fswrites == old(fswrites) && fdata == old(fdata) && fexists == old(fexists)
+//@ ensures [C19,clean-removes-or-writes-the-cache] !a.Options.Init && !a.Options.Fmt && !a.Options.Variables && a.Options.Clean ==> forall p string :: {fswrites[p]} fswrites[p] && !old(fswrites)[p] ==> removed[p] || ancOrSelf(projCache(a), p)
+//@ ensures [C19,running-writes-only-inside-the-cache-directory] !a.Options.Init && !a.Options.Fmt && !a.Options.Variables && !a.Options.Clean && !a.Options.Show ==> forall p string :: {fswrites[p]} fswrites[p] && !old(fswrites)[p] ==> ancOrSelf(projCache(a), p)
+//@ ensures [C09,failing-command-fails-the-invocation] result == nil && runCalls != old(runCalls) ==> tasksOk(lastResults, len(lastResults))
+//@ ensures [C20,tasks-run-only-for-run-actions] a.Options.Init || a.Options.Fmt || a.Options.Variables ==> runCalls == old(runCalls)
